@@ -332,12 +332,16 @@ def run_validator(acc, P, job, names):
             rules[n] = m[x % M]
             x //= M
         for variant in ('file', 'missing', 'partial-registration',
-                        'unparseable', 'subset'):
+                        'unparseable', 'subset', 'no-registration'):
             file_rules = dict(rules)
             registered = list(names)
             missing = variant == 'missing'
             if variant == 'partial-registration':
                 registered = list(names[1:])
+            if variant == 'no-registration':
+                # the service registers nothing: every name in the file is
+                # one it does not register
+                registered = []
             if variant == 'unparseable':
                 file_rules[names[0]] = 'role:x and'
             if variant == 'subset':
@@ -378,7 +382,8 @@ def run_validator(acc, P, job, names):
                 undefined, cyc = graph_problem(effective)
                 exp = 1 if (missing or undefined or cyc or
                             variant in ('partial-registration',
-                                        'unparseable')) else 0
+                                        'unparseable', 'no-registration'))\
+                    else 0
                 if missing:
                     exp = 1
                 acc.case('S3', True)
